@@ -197,6 +197,13 @@ def directed(cfg):
                 for t in touch[node]:
                     for tail in ([], [["R"]], [["B"]] + touch[node][0]):
                         out.append(b + [["B"]] + rp + [["B"]] * n + t + tail)
+    # name collisions between a group and its child (every seed; F26 needed exactly this shape)
+    for gname, child in (("n", "n"), ("n", "nn"), ("nn", "n"), ("n", "m")):
+        g, d = "/" + gname, f"/{gname}/{child}"
+        for pre in ([], [["attach", d, "vt.aa"]], [["attach", d, "vt.aa"], ["B"]]):
+            for op in (["gcopy", g, child, "zz"], ["gmove", g, child, "zz"], ["gcopy", g, child, "yy/zz"], ["copy", d, "/zz"], ["move", d, "/zz"], ["copy", d, f"{g}/zz"], ["copy", g, "/zz"], ["move", g, "/zz"]):
+                for tail in ([], [["R"]]):
+                    out.append([["mkgrp", g], ["mkds", d]] + pre + [op] + tail)
     return out
 
 
